@@ -304,3 +304,16 @@ func sameStore(a, b map[string]mval) string {
 	}
 	return ""
 }
+
+// stepTimed is step with a watchdog: a Next call that does not return is reported as an event of kind "hang"
+// (the goroutine is left behind; the runner must not be used afterwards).
+func stepTimed(h *host, arg int, limit time.Duration) Ev {
+	done := make(chan Ev, 1)
+	go func() { done <- h.step(arg) }()
+	select {
+	case ev := <-done:
+		return ev
+	case <-time.After(limit):
+		return Ev{K: "hang"}
+	}
+}
